@@ -11,6 +11,7 @@ import vlib
 
 IDS = ["Chrome-120", "Firefox-120", "Randomized"]  # must be the IDs of spec/Roller_*.cfg; "Randomized" = HelloRandomized (unseeded)
 RAND = "Randomized"
+STALL_TMO_MS = 3000   # Roller.TlsHandshakeTimeout in histories with a stalling server (NewRoller's own choice, 11..30 s, otherwise)
 TIMEOUT_MS = 90000                                 # watchdog per Dial (Roller's own timeouts are 7..30 s per attempt)
 MC_ACTIONS = ["BeginStep", "Shuffle", "ReadWorking", "TcpDial", "Handshake", "Record"]
 
@@ -35,7 +36,8 @@ def shm_extra(ctx):
 
 def run_roller(ctx, scs, name, race=True):
     inp = {"ids": IDS, "timeout_ms": TIMEOUT_MS,
-           "scenarios": [{"id": s["id"], "configured": s["configured"], "preset": "" if s["preset"] == "-" else s["preset"], "steps": s["steps"]} for s in scs]}
+           "scenarios": [{"id": s["id"], "configured": s["configured"], "preset": "" if s["preset"] == "-" else s["preset"], "steps": s["steps"],
+                          "tmo_ms": STALL_TMO_MS if any(st.get("stall") or st["rmode"] == "stall" for st in s["steps"]) else 0} for s in scs]}
     racerep = None
     try:
         evs = ctx.drv("rollerdial", inp, race=race, prog="quic", name=name, timeout=2400)
@@ -56,10 +58,10 @@ def run_roller(ctx, scs, name, race=True):
             se = [e for e in evs if e.get("ev") == "StepEnd" and e["sc"] == s["id"] and e["step"] == k + 1]
             if len(d) != st["n"] or len(se) != 1:
                 raise vlib.Machinery("harness log incomplete for scenario %d step %d" % (s["id"], k + 1))
-            steps.append({"accept": st["accept"], "rmode": st["rmode"], "tcpfail": st["tcpfail"], "n": st["n"],
+            steps.append({"accept": st["accept"], "stall": st.get("stall", []), "rmode": st["rmode"], "tcpfail": st["tcpfail"], "n": st["n"],
                           "working": se[0]["working"], "wseed": se[0]["wseed"], "stray": se[0]["stray"],
                           "dials": [{"caller": e["caller"], "ret": e["ret"], "seen": [[a, b] for a, b in zip(e["seen"], e["seen_k"])], "sok": e["seen_ok"], "snis": e["snis"],
-                                     "given": e["given"], "conn": e["conn"], "csni": e["csni"], "cseed": e["cseed"]} for e in d]})
+                                     "given": e["given"], "conn": e["conn"], "csni": e["csni"], "cseed": e["cseed"], "ms": e["ms"], "tmo": e["tmo"]} for e in d]})
         rows[s["id"]] = {"id": s["id"], "configured": s["configured"], "preset": s["preset"], "steps": steps}
     return rows, racerep
 
@@ -130,6 +132,13 @@ def classes_of(row):
                 out.add("sni-not-the-given-name")
             if d["ret"] not in ("ok", "hserr", "tcperr"):
                 out.add("dial-" + d["ret"])
+            stalled = [x for x in seen if (x[0] == RAND and st["rmode"] == "stall") or x[0] in st.get("stall", [])]
+            if stalled and d["ret"] == "hserr" and (any(x in st["accept"] for x in names) or not conf <= set(names)):
+                out.add("gave-up-after-stalled-id")
+            if d["ms"] * 10 < len(stalled) * d["tmo"] * 9:
+                out.add("stalled-attempt-shorter-than-timeout")
+            if d["ms"] > (len(stalled) + 1) * d["tmo"] + 3000:
+                out.add("dial-longer-than-per-attempt-timeouts")
             if any(x not in conf and x != w[0] for x in names) and st["n"] == 1:
                 out.add("unconfigured-id-tried")
         oks = [d for d in st["dials"] if d["ret"] == "ok" and d["seen"]]
@@ -178,8 +187,9 @@ def _run(ctx, pool):
         return "model_checking", {"evaluations": n, "distinct_nontrivial": 1, "rule": "replay of one recorded history, up to %d runs until one is rejected" % RERUNS, "samples": [sc], "exhaustive": False}, []
     # ------------------------------------------------------------------ 1. model checking (background)
     # quick: every 1-step history with 2 concurrent callers + every sequential history of length 2;
-    # thorough: every history of length <= 3 with 2 concurrent callers
-    safe_cfg = mkcfg(ctx, "Roller_MC", "c29_safe", MaxSteps="1" if q else "3")
+    # thorough: every history of length <= 2 with 2 concurrent callers + every sequential history of length 3
+    # (3 steps x 2 callers was 12.8M states before the stall reaction was added; it is sampled by the simulated histories instead)
+    safe_cfg = mkcfg(ctx, "Roller_MC", "c29_safe", MaxSteps="1" if q else "2")
     seq_cfg = mkcfg(ctx, "Roller_MC", "c29_seq", MaxSteps="2" if q else "3", MaxCallers="1")
     cov_cfg = mkcfg(ctx, "Roller_MC", "c29_cov", MaxSteps="1", IDs='{"Chrome-120", "Randomized"}')
     live_cfg = mkcfg(ctx, "Roller_MC_live", "c29_live", IDs='{"Chrome-120", "Randomized"}' if q else '{"Chrome-120", "Firefox-120", "Randomized"}')
@@ -206,6 +216,14 @@ def _run(ctx, pool):
     chosen = [o for kk, o in sorted(hists.items()) if json.dumps([o["configured"], o["preset"], o["steps"]], sort_keys=True) not in longer]
     if not chosen:
         raise vlib.Machinery("TLC emitted no Dial histories")
+    # a stalled attempt costs a full TlsHandshakeTimeout of wall time: histories with a stalling server are capped (VERIF_SEED-chosen)
+    stallers = [o for o in chosen if any(st["stall"] or st["rmode"] == "stall" for st in o["steps"])]
+    cap = 10 ** 6 if q else 400
+    if len(stallers) > cap:
+        import random
+        random.Random(ctx.seed).shuffle(stallers)
+        drop = {json.dumps(o, sort_keys=True) for o in stallers[cap:]}
+        chosen = [o for o in chosen if json.dumps(o, sort_keys=True) not in drop]
     scs = [{"id": i + 1, "configured": o["configured"], "preset": o["preset"], "steps": o["steps"]} for i, o in enumerate(chosen)]
     by_id = {s["id"]: s for s in scs}
 
@@ -314,6 +332,34 @@ def _run(ctx, pool):
         if swallowed:
             raise vlib.Machinery("binding canary accepted by the trace specification: %s" % swallowed)
     names = names + rnames
+    # canaries about stalled attempts: every attempt has its own timeout
+    def stall_then_ok(r):
+        s1 = r["steps"][0]; d = s1["dials"][0]
+        return r["id"] in acc and s1["n"] == 1 and d["ret"] == "ok" and len(d["seen"]) >= 2 and d["seen"][0][0] in s1["stall"]
+    sbase = next((r for r in allrows if stall_then_ok(r)), None)
+    if sbase is None and not ctx.findings:
+        raise vlib.Machinery("vacuity: no accepted history whose first Dial met a stalled ID and then succeeded with another one")
+    snames = []
+    if sbase is not None:
+        def svariant(f):
+            c = json.loads(json.dumps(sbase)); f(c["steps"][0]["dials"][0]); return c
+        def too_fast(d): d["ms"] = 5
+        def too_slow(d): d["ms"] = (len(d["seen"]) + 1) * d["tmo"] + 60000
+        def gave_up(d): d["ret"] = "hserr"; d["conn"] = "-"; d["csni"] = ""; d["cseed"] = ""; d["sok"][-1] = False
+        smuts = {"stalled-attempt-cut-short": too_fast, "dial-exceeds-per-attempt-timeouts": too_slow, "gave-up-after-stalled-id": gave_up}
+        snames = sorted(smuts)
+        crow = [dict(sbase, id=1)] + [dict(svariant(smuts[n]), id=k + 2) for k, n in enumerate(snames)]
+        # gave_up also has to leave WorkingHelloID where it was
+        crow[1 + snames.index("gave-up-after-stalled-id")]["steps"][0]["working"] = sbase["preset"]
+        crow[1 + snames.index("gave-up-after-stalled-id")]["steps"][0]["wseed"] = ""
+        crow[1 + snames.index("gave-up-after-stalled-id")]["steps"] = crow[1 + snames.index("gave-up-after-stalled-id")]["steps"][:1]
+        cacc = validate(ctx, crow, shards=1, tagname="e")
+        if 1 not in cacc:
+            raise vlib.Machinery("canary control history (stall) was rejected")
+        swallowed = [snames[k - 2] for k in cacc if k != 1]
+        if swallowed:
+            raise vlib.Machinery("binding canary accepted by the trace specification: %s" % swallowed)
+    names = names + snames
 
     # ------------------------------------------------------------------ 5. model-checking results + vacuity
     safe, seq, cov, live = f_safe.result(), f_seq.result(), f_cov.result(), f_live.result()
@@ -331,12 +377,17 @@ def _run(ctx, pool):
             w = st["working"]
     seen = {"working_tried_first_then_fallthrough": 0, "preset_outside_configured_prepended": 0, "all_ids_refused": 0, "tcp_error": 0,
             "two_concurrent_successes": 0, "working_updated": 0, "histories_of_length_3": 0,
-            "randomized_fingerprint_presented_again_by_next_dial": 0, "randomized_fingerprint_pinned_server_accepts_again": 0, "seeded_working_refused_then_fresh_randomized": 0}
+            "randomized_fingerprint_presented_again_by_next_dial": 0, "randomized_fingerprint_pinned_server_accepts_again": 0, "seeded_working_refused_then_fresh_randomized": 0,
+            "stalled_id_then_success_with_a_later_id": 0, "last_working_id_stalled_then_another_id_works": 0, "two_stalled_ids_in_one_call": 0}
     for r in accrows:
         seen["histories_of_length_3"] += len(r["steps"]) >= 3
         for _, st, d, w in dials(r):
             seen["working_tried_first_then_fallthrough"] += (st["n"] == 1 and w != "-" and len(d["seen"]) >= 2 and d["seen"][0][0] == w)
             seen["preset_outside_configured_prepended"] += (st["n"] == 1 and w != "-" and w not in r["configured"] and [x[0] for x in d["seen"][:1]] == [w])
+            nst = [x for x in d["seen"] if (x[0] == RAND and st["rmode"] == "stall") or x[0] in st["stall"]]
+            seen["stalled_id_then_success_with_a_later_id"] += (d["ret"] == "ok" and len(nst) >= 1)
+            seen["last_working_id_stalled_then_another_id_works"] += (st["n"] == 1 and d["ret"] == "ok" and len(nst) >= 1 and w != "-" and d["seen"][0][0] == w and d["seen"][0] in nst)
+            seen["two_stalled_ids_in_one_call"] += len(nst) >= 2
             seen["all_ids_refused"] += d["ret"] == "hserr"
             seen["tcp_error"] += d["ret"] == "tcperr"
             seen["working_updated"] += (st["n"] == 1 and d["ret"] == "ok" and d["conn"] != w)
@@ -354,7 +405,7 @@ def _run(ctx, pool):
     ndials = sum(len(st["dials"]) for r in allrows for st in r["steps"])
     nhello = sum(len(d["seen"]) for r in allrows for st in r["steps"] for d in st["dials"])
     sample = [{"configured": r["configured"], "preset": r["preset"],
-               "steps": [{"accept": st["accept"], "rmode": st["rmode"], "tcpfail": st["tcpfail"], "dials": [{"seen": d["seen"], "ret": d["ret"], "conn": d["conn"]} for d in st["dials"]], "working_after": st["working"], "working_seed": st["wseed"][:8]} for st in r["steps"]]}
+               "steps": [{"accept": st["accept"], "stall": st["stall"], "rmode": st["rmode"], "tcpfail": st["tcpfail"], "dials": [{"seen": d["seen"], "ret": d["ret"], "conn": d["conn"], "ms": d["ms"]} for d in st["dials"]], "working_after": st["working"], "working_seed": st["wseed"][:8]} for st in r["steps"]]}
               for r in accrows[:2]]
     cov_d = {"evaluations": ndials, "distinct_nontrivial": len(scs),
              "rule": "evaluations = Roller.Dial calls made on the real code (loopback TCP, -race); distinct = distinct Dial histories "
@@ -363,7 +414,7 @@ def _run(ctx, pool):
              "histories": len(scs), "accepted": len(acc), "rejected_and_reproduced": len(sigs), "rejected_signatures": sorted(set(sigs.values())), "rerun_rounds_used": reruns_used,
              "hellos_seen_by_server": nhello, "branches_seen_in_accepted_histories": seen, "canaries_rejected": names,
              "mc_actions_covered": {a: cov.coverage.get(a, 0) for a in MC_ACTIONS},
-             "model": {"safety_states_2_callers": safe.distinct, "max_steps_2_callers": 1 if q else 3, "safety_states_sequential": seq.distinct,
+             "model": {"safety_states_2_callers": safe.distinct, "max_steps_2_callers": 1 if q else 2, "safety_states_sequential": seq.distinct,
                        "max_steps_sequential": 2 if q else 3, "liveness_states": live.distinct},
              "race_detector": "on", "race_reports": 1 if racerep else 0, "samples": sample, "exhaustive": False}
     return "model_checking", cov_d, [
